@@ -190,12 +190,14 @@ def allNames (c : Call) : List Nat := c.localNames ++ c.outerNames ++ paramNames
 /-- names the caller can see at the call site -/
 def visible (c : Call) : List Nat := c.localNames ++ c.outerNames
 
-/-- `_add_symbols_from_table`: `self.add(sym)` fails — and the symbol is renamed to an unused
-name — only when the name is in the table *at the call site itself* (`self._symbols`);
-names of enclosing scopes are shadowed silently.  The new name is an injective function of
-the old one outside `allNames` (the real code appends `_1`, `_2`, …). -/
+/-- Renaming of the callee's locals when they are merged into the caller (FIXED code,
+`fixes/C07-outer-capture.patch`): `InlineTrans.apply` first renames every local whose name is
+visible at the call site from an enclosing scope, then `_add_symbols_from_table` renames those
+that clash with the table at the call site itself (`self.add(sym)` fails).  Either way the new
+name comes from `next_available_name`: an injective function of the old name outside
+`allNames` (the real code appends `_1`, `_2`, …). -/
 def renOf (c : Call) (l : Nat) : Nat :=
-  if l ∈ c.localNames then maxList (allNames c) + 1 + l else l
+  if l ∈ c.localNames ∨ l ∈ c.outerNames then maxList (allNames c) + 1 + l else l
 
 /-- storage that no name of either routine or of an enclosing scope denotes: the callee frame
 used (by the driver) to run the *original* program; `Props/C07` proves it fresh for every call -/
@@ -208,6 +210,7 @@ inductive Refusal where
   | static      -- a local with a static interface
   | container   -- the body accesses a name that is not declared in the routine
   | nargs       -- number of actual ≠ number of formal arguments
+  | loopVarActual -- a formal used as DO variable whose actual is not a plain scalar variable
   | arrayExpr   -- array formal, actual is neither a Reference nor a Literal
   | rank        -- array formal, actual of different rank
   | stride      -- array section with non-unit stride
@@ -237,6 +240,20 @@ def checkArgs : List Param → List Actual → Option Refusal
     | none => checkArgs ps as
   | _, _ => none
 
+def loopVars : Stmt → List Nat
+  | .skip | .assign .. | .store1 .. | .store2 .. => []
+  | .seq a b => loopVars a ++ loopVars b
+  | .ite _ t f => loopVars t ++ loopVars f
+  | .loop v _ _ _ b => v :: loopVars b
+
+/-- FIXED code (`fixes/C07-loopvar-formal.patch`): a formal used as DO variable must be associated
+with a plain variable (its symbol then replaces `Loop.variable`) -/
+def badLoopVar (c : Call) (v : Nat) : Bool :=
+  match findFormal c.params c.actuals v with
+  | some (_, .var _) => false
+  | some _ => true
+  | none => false
+
 /-- RETURN statements other than one trailing RETURN: these would leave the *caller* if copied -/
 def earlyReturns (c : Call) : Nat := c.nReturns - (if c.lastIsReturn then 1 else 0)
 
@@ -246,6 +263,7 @@ def validate (c : Call) : Except Refusal Unit :=
   else if c.locals.any (fun l => c.statics.contains l) then .error .static
   else if (stmtVars c.body).any (fun x => !(paramNames c ++ c.locals).contains x) then .error .container
   else if c.params.length ≠ c.actuals.length then .error .nargs
+  else if (loopVars c.body).any (badLoopVar c) then .error .loopVarActual
   else match checkArgs c.params c.actuals with
     | some r => .error r
     | none => .ok ()
@@ -299,11 +317,12 @@ def assignTo (lhs : Expr) (rhs : Expr) (dflt : Stmt) : Stmt :=
   | .idx2 a i j => .store2 a i j rhs
   | _ => dflt
 
-/-- `Loop.variable` is a Symbol, not a Reference: it follows the renaming of a merged local
-but is **not** replaced when it is a formal argument -/
+/-- `Loop.variable` is a Symbol, not a Reference: it follows the renaming of a merged local, and
+(FIXED code) a formal associated with a plain variable is replaced by that variable -/
 def loopVar (r : Role) (v : Nat) : Nat :=
   match r with
   | .loc y => y
+  | .formal _ (.var y) => y
   | _ => v
 
 def substS (ρ : Nat → Role) : Stmt → Stmt
@@ -348,8 +367,10 @@ def rank2Role : Role → Bool
   | .formal _ (.sec2 ..) => true
   | _ => false
 
+/-- a DO variable is a local or a scalar dummy associated with a variable -/
 def loopRole : Role → Bool
   | .loc _ | .free => true
+  | .formal _ (.var _) => true
   | _ => false
 
 def okE (ρ : Nat → Role) : Expr → Bool
@@ -369,31 +390,12 @@ def okS (ρ : Nat → Role) : Stmt → Bool
   | .ite c t f => okE ρ c && okS ρ t && okS ρ f
   | .loop v lo hi st b => loopRole (ρ v) && okE ρ lo && okE ρ hi && okE ρ st && okS ρ b
 
-/-- Fortran also allows a scalar dummy associated with a variable as DO variable -/
-def loopRoleLegal : Role → Bool
-  | .loc _ | .free => true
-  | .formal _ (.var _) => true
-  | _ => false
-
-def okSL (ρ : Nat → Role) : Stmt → Bool
-  | .skip => true
-  | .seq a b => okSL ρ a && okSL ρ b
-  | .assign x e => definableScalarRole (ρ x) && okE ρ e
-  | .store1 a i e => rank1Role (ρ a) && okE ρ i && okE ρ e
-  | .store2 a i j e => rank2Role (ρ a) && okE ρ i && okE ρ j && okE ρ e
-  | .ite c t f => okE ρ c && okSL ρ t && okSL ρ f
-  | .loop v lo hi st b => loopRoleLegal (ρ v) && okE ρ lo && okE ρ hi && okE ρ st && okSL ρ b
-
-/-- the call is a legal Fortran call inside the modelled subset (names used according to
-the rank of what they are bound to; dummies associated with expressions never defined) -/
-def Legal (c : Call) : Prop := okSL (roleOf (renOf c) c) c.body = true
+/-- the call is a legal Fortran call inside the modelled subset (names used according to the
+rank of what they are bound to; dummies associated with expressions never defined; DO variables
+are locals or dummies associated with variables) -/
+def Legal (c : Call) : Prop := okS (roleOf (renOf c) c) c.body = true
 
 instance (c : Call) : Decidable (Legal c) := by unfold Legal; exact inferInstance
-
-/-- `Legal`, and additionally no formal argument is used as a DO variable -/
-def WellFormed (c : Call) : Prop := okS (roleOf (renOf c) c) c.body = true
-
-instance (c : Call) : Decidable (WellFormed c) := by unfold WellFormed; exact inferInstance
 
 /-- variables on which the *meaning* of an actual argument depends: subscripts of element
 actuals, section starts, and everything read by an expression actual -/
@@ -407,6 +409,16 @@ def actualKeyVars : Actual → List Nat
   | .col _ st1 j _ => exprVars st1 ++ exprVars j
   | .row _ i st2 _ => exprVars i ++ exprVars st2
 
+/-- the caller variable an actual argument gives access to (none for an expression) -/
+def actualBase : Actual → Option Nat
+  | .var y => some y
+  | .elem1 a _ | .elem2 a _ _ | .sec1 a _ _ | .sec2 a _ _ _ | .col a _ _ _ | .row a _ _ _ => some a
+  | .expr _ => none
+
+/-- every caller variable an actual argument mentions -/
+def actualVars (a : Actual) : List Nat :=
+  (match actualBase a with | some b => [b] | none => []) ++ actualKeyVars a
+
 def keyVars : List Actual → List Nat
   | [] => []
   | a :: as => actualKeyVars a ++ keyVars as
@@ -417,16 +429,32 @@ def IndexStable (c : Call) : Prop := ∀ x ∈ written (apply c), x ∉ keyVars 
 
 instance (c : Call) : Decidable (IndexStable c) := by unfold IndexStable; exact inferInstance
 
-/-- no callee local has the name of a variable the caller sees from an enclosing scope -/
-def NoOuterClash (c : Call) : Prop := ∀ l ∈ c.locals, l ∉ c.outerNames ∨ l ∈ c.localNames
+/-- the actual arguments mention only names visible at the call site -/
+def WellScoped (c : Call) : Prop := ∀ a ∈ c.actuals, ∀ v ∈ actualVars a, v ∈ visible c
 
-instance (c : Call) : Decidable (NoOuterClash c) := by unfold NoOuterClash; exact inferInstance
+instance (c : Call) : Decidable (WellScoped c) := by unfold WellScoped; exact inferInstance
+
+/-- the caller variable written when the callee writes the name `x` -/
+def target (r : Role) (x : Nat) : Nat :=
+  match r with
+  | .loc y => y
+  | .free => x
+  | .formal _ a => (actualBase a).getD x
 
 /-! ## caller programs with calls -/
+
+/-- the statement `st` with the name `res` (the result variable of a called function, standing for
+the value of the function reference) replaced by the variable `y`; nothing else is touched -/
+def useAt (res y : Nat) (st : Stmt) : Stmt :=
+  substS (fun x => if x = res then .loc y else .free) st
 
 inductive CStmt where
   | base (s : Stmt)
   | call (c : Call)
+  /-- an assignment `st` whose right-hand side contains a reference to the function `c`; the
+  function's result variable is the callee local `res`, and `st` mentions the value of the function
+  reference as the name `res` -/
+  | fcall (c : Call) (res : Nat) (st : Stmt)
   | seq (a b : CStmt)
   | ite (cond : Expr) (t f : CStmt)
   | loop (v : Nat) (lo hi step : Expr) (body : CStmt)
@@ -435,6 +463,9 @@ inductive CStmt where
 def execC (frame : Call → Nat → Nat) : CStmt → Store → Store
   | .base s, σ => exec s σ
   | .call c, σ => execCall (frame c) c σ
+  -- function reference: run the function (by-reference arguments, side effects included), then the
+  -- statement with the value its result variable holds on return
+  | .fcall c res st, σ => exec (useAt res (frame c res) st) (execCall (frame c) c σ)
   | .seq a b, σ => execC frame b (execC frame a σ)
   | .ite c t f, σ => if eval c σ ≠ 0 then execC frame t σ else execC frame f σ
   | .loop v lo hi step body, σ =>
@@ -445,6 +476,8 @@ def execC (frame : Call → Nat → Nat) : CStmt → Store → Store
 def inlineAll : CStmt → Stmt
   | .base s => s
   | .call c => apply c
+  -- the body is inserted before the statement, the call is replaced by the (renamed) result variable
+  | .fcall c res st => .seq (apply c) (useAt res (renOf c res) st)
   | .seq a b => .seq (inlineAll a) (inlineAll b)
   | .ite c t f => .ite c (inlineAll t) (inlineAll f)
   | .loop v lo hi step body => .loop v lo hi step (inlineAll body)
@@ -452,6 +485,7 @@ def inlineAll : CStmt → Stmt
 def calls : CStmt → List Call
   | .base _ => []
   | .call c => [c]
+  | .fcall c _ _ => [c]
   | .seq a b => calls a ++ calls b
   | .ite _ t f => calls t ++ calls f
   | .loop _ _ _ _ body => calls body
